@@ -45,6 +45,8 @@ SCHEMA = {
 LEAVES = ['Identifier', 'Constant', 'NullConstant', 'Star', 'Parameter', 'Variable', 'Last', 'Latest', 'Interval',
           'NativeQuery', 'Data', 'Object']
 CNONE = 1
+REORDERED = set()
+NONNODE = set()
 NONE_ID = 999999      # every None child carries this id (the callback cannot tell them apart)
 
 
@@ -196,6 +198,11 @@ def probe_class(cname):
     order = []
     flags = {}
     per_field_visits = {}
+    for i, tb, tg, node in list(seen):
+        if i not in owner and isinstance(node, (list, tuple, dict)):
+            # the walker handed a container to the callback: not a node of the tree
+            NONNODE.add(cname)
+            seen.remove((i, tb, tg, node))
     for i, tb, tg, node in seen:
         if i not in owner:
             raise TranslateError(f'{cname}: callback received an object that is not one of the sentinels: {node!r}')
@@ -211,8 +218,10 @@ def probe_class(cname):
     for f in order:
         n = len(per_field_visits[f])
         chunk = [owner[i][0] for i, *_ in seen[pos:pos + n]]
-        if chunk != [f] * n or per_field_visits[f] != sorted(set(per_field_visits[f])):
-            raise TranslateError(f'{cname}.{f}: elements are not visited once, contiguously, in order')
+        if chunk != [f] * n or len(set(per_field_visits[f])) != len(per_field_visits[f]):
+            raise TranslateError(f'{cname}.{f}: elements are not visited once and contiguously')
+        if per_field_visits[f] != sorted(per_field_visits[f]):
+            REORDERED.add((cname, f))        # the elements of this field are visited in another order than they are written
         expected = sum(1 for v in owner.values() if v[0] == f)
         if n != expected:
             raise TranslateError(f'{cname}.{f}: {n} of {expected} elements visited')
@@ -286,7 +295,11 @@ def deviations(sched):
             for a, b in zip(common_s, [f for f in efields if f in sfields]):
                 if a != b:
                     out.append((cname, b, 'out_of_order'))
+        if cname in NONNODE:
+            out.append((cname, '*', 'callback_receives_container'))
         for f, tb, tg, none, repl in es:
+            if (cname, f) in REORDERED:
+                out.append((cname, f, 'elements_reordered'))
             st = [(x[2], x[3]) for x in slots if x[0] == f]
             if st and st[0] != (tb, tg):
                 out.append((cname, f, 'wrong_flags'))
